@@ -153,6 +153,8 @@ class Database:
             return self.delete_table_group(obj)
         elif isinstance(obj, Project):
             return self.delete_project()
+        elif isinstance(obj, StickyNote):
+            return self.delete_sticky_note(obj)
         else:
             raise DatabaseValidationError(f'Unsupported type {type(obj)}.')
 
@@ -189,6 +191,15 @@ class Database:
         except ValueError:
             raise DatabaseValidationError(f'{obj} is not in the database.')
         result = self.table_groups.pop(index)
+        self._unset_database(result)
+        return result
+
+    def delete_sticky_note(self, obj: StickyNote) -> StickyNote:
+        try:
+            index = self.sticky_notes.index(obj)
+        except ValueError:
+            raise DatabaseValidationError(f'{obj} is not in the database.')
+        result = self.sticky_notes.pop(index)
         self._unset_database(result)
         return result
 
